@@ -164,4 +164,44 @@ AdvanceIsSum(infos, adv) ==
 ChainAnchorStays(infos) ==
   \A j \in 1 .. Len(infos) :
     (CPreds(infos, j) = {} /\ CLink(infos, j) /\ ~infos[j].pl.r) => CrossY(infos)[j] = 0
+
+\* ---- combinations of the mechanisms in one run ----------------------------------------
+\* the glyph a mark finally rests on (mark on mark on ... on a base / ligature)
+RECURSIVE RootOf(_, _)
+RootOf(infos, j) == IF infos[j].pl.t = "M" THEN RootOf(infos, infos[j].pl.i + 1) ELSE j
+
+\* glyph j is part of a cursive chain
+InChain(infos, j) == CLink(infos, j) \/ CPreds(infos, j) # {}
+
+\* what the cursive join does to glyph j: moved across the line / its advance replaced
+MovedAcross(infos, j)   == InChain(infos, j) /\ CrossY(infos)[j] # 0
+FittedLtr(infos, adv, j) == CLink(infos, j) /\ EffAdvLtr(infos, adv, j) # Adv(infos, adv, j)
+FittedRtl(infos, adv, j) == CPreds(infos, j) # {} /\ EffAdvRtl(infos, adv, j) # Adv(infos, adv, j)
+
+\* the run without its attached marks (indices of cursive links renumbered)
+KeptIdx(infos) ==
+  LET S == {j \in 1 .. Len(infos) : infos[j].pl.t # "M"} IN
+  [k \in 1 .. Cardinality(S) |-> CHOOSE j \in S : Cardinality({q \in S : q <= j}) = k]
+NewIdx(infos, j) == Cardinality({q \in 1 .. j : infos[q].pl.t # "M"})
+WithoutMarks(infos) ==
+  LET K == KeptIdx(infos) IN
+  [k \in 1 .. Len(K) |->
+     LET x == infos[K[k]] IN
+     IF x.pl.t = "C" THEN [x EXCEPT !.pl.i = NewIdx(infos, x.pl.i + 1) - 1] ELSE x]
+
+\* MarksTransparent: attached marks that take no room on the line are invisible to everything
+\* else - kerning, Distance placements, cursive joins (which step over them), the total
+\* advance: deleting them leaves every other glyph where it was, in both directions.
+\* (Together with MarkRelativeToBase: a cluster of base + marks moves as one when a cursive
+\* join or an adjustment moves the base.)
+MarksTransparent(infos, adv) ==
+  ((\E j \in 1 .. Len(infos) : infos[j].pl.t = "M")
+   /\ \A j \in 1 .. Len(infos) : infos[j].pl.t = "M" => Adv(infos, adv, j) = 0) =>
+    LET K == KeptIdx(infos)
+        W == WithoutMarks(infos) IN
+    \A dir \in {"ltr", "rtl"} :
+      LET O == Origins(infos, adv, dir)
+          P == Origins(W, adv, dir) IN
+      /\ Total(W, adv, dir) = Total(infos, adv, dir)
+      /\ \A k \in 1 .. Len(K) : P[k] = O[K[k]]
 =============================================================================
